@@ -100,6 +100,12 @@ def run_impl(descr) -> Any:
     try:
         if shape == "match":
             ent = entity_matching(_Row, items)(on=True)
+            if descr.get("again"):
+                # the SAME pattern object quantified a second time (krrood 382bab2; it raised InvalidEntityType before)
+                try:
+                    list(an(ent).evaluate())
+                except Exception:  # noqa
+                    pass
         else:
             ent = entity(x, x >= 1) if shape == "entity" else set_of([x], x >= 1)
         q = an(ent, quantification=c) if c is not None else an(ent)
@@ -305,6 +311,8 @@ def gen_cases(tier: str, seed: int) -> List[dict]:
             extra.append(dict(d, shape="setof"))
         if rng.chance(0.1):
             extra.append(dict(d, shape="match"))       # (seeded C09-J: the match branch of an() dropped quantification=)
+            if d["q"] == "an":
+                extra.append(dict(d, shape="match", again=1))
         if d["q"] == "an" and d["k"] is not None and rng.chance(0.06):
             extra.append(dict(d, mode="lockstep"))
         if d.get("k") is None or (d["q"] == "an" and rng.chance(0.03)):
